@@ -1,4 +1,4 @@
-from typing import Iterator, Tuple
+from typing import Iterator, Tuple, List
 
 
 def read_lines_as_str__w_minimum_num_chars(min_num_chars_to_read: int, lines: Iterator[str]) -> Tuple[str, bool]:
@@ -15,3 +15,16 @@ def read_lines_as_str__w_minimum_num_chars(min_num_chars_to_read: int, lines: It
             break
     contents = ''.join(actual_lines)
     return contents, len(contents) >= min_num_chars_to_read
+
+
+def split_lines__keep_ends(s: str) -> List[str]:
+    """
+    Splits a string into lines, in the same way as iterating a text file does:
+    lines are separated by new-line characters only, and line ends are included.
+    """
+    lines = s.split('\n')
+    last = lines.pop()
+    ret_val = [line + '\n' for line in lines]
+    if last:
+        ret_val.append(last)
+    return ret_val
